@@ -38,7 +38,7 @@ pub fn run(c: &Cmd) -> Run {
         Out::File(p) => { cmd.stdout(std::fs::File::create(p).map(Stdio::from).unwrap_or_else(|_| Stdio::null())); }
         Out::DevFull => { cmd.stdout(std::fs::OpenOptions::new().write(true).open("/dev/full").map(Stdio::from).unwrap_or_else(|_| Stdio::null())); }
         Out::Null => { cmd.stdout(Stdio::null()); }
-        Out::ClosedPipe => { let mut fds = [0i32; 2]; unsafe { libc::pipe(fds.as_mut_ptr()); } closed_reader = Some(fds[0]); cmd.stdout(unsafe { <Stdio as std::os::fd::FromRawFd>::from_raw_fd(fds[1]) }); }
+        Out::ClosedPipe => { let mut fds = [0i32; 2]; unsafe { libc::pipe2(fds.as_mut_ptr(), libc::O_CLOEXEC); } closed_reader = Some(fds[0]); cmd.stdout(unsafe { <Stdio as std::os::fd::FromRawFd>::from_raw_fd(fds[1]) }); }
     }
     cmd.stderr(Stdio::piped());
     let mut child = match cmd.spawn() { Ok(c) => c, Err(e) => return Run { code: None, signal: None, stdout: vec![], stderr: format!("spawn failed: {}", e).into_bytes(), timed_out: false } };
